@@ -1000,6 +1000,12 @@ class SynFn:
         if sp is not None:
             return sp
         pre, c, t = self.tx(test, env)
+        if rt(t) != "B" and isinstance(rt(t), str) and rt(t).startswith("L:") and isinstance(test, ast.Name):
+            # `if l:` on a list is `if len(l) > 0:` -- rendered through that spelling, so both give the same text
+            spelled = ast.copy_location(ast.Compare(left=ast.Call(func=ast.Name(id="len", ctx=ast.Load()), args=[test], keywords=[]),
+                                                    ops=[ast.Gt()], comparators=[ast.Constant(value=0)]), test)
+            ast.fix_missing_locations(spelled)
+            pre, c, t = self.tx(spelled, env)
         if rt(t) != "B":
             fail(test, f"truthiness of a value of type {rt(t)}")
         env2 = self.escaped(env, test)
